@@ -30,11 +30,12 @@ var Scripts = map[string]string{
 	"s2": "stream\n    |from()\n        .measurement('m2')\n    |window()\n        .period(10s)\n        .every(10s)\n",
 	"sv": "var v string\n\nstream\n    |from()\n        .measurement(v)\n",
 	"sx": "stream\n    |nosuch()\n",
-	"sf": "stream\n    |from()\n        .measurement('mf')\n    |influxDBOut()\n        .database('out')\n        .measurement('o')\n",
+	"sf": "stream\n    |from()\n        .measurement('mf')\n    |influxDBOut()\n        .cluster('c1')\n        .database('out')\n        .measurement('o')\n",
+	"sb": "batch\n    |query('SELECT value FROM \"db1\".\"rp1\".\"m\"')\n        .period(10s)\n        .every(10s)\n    |count('value')\n",
 	"q1": "var w = 'a'\n\nstream\n    |from()\n        .measurement(w)\n",
 	"q2": "var w = 'b'\n\nstream\n    |from()\n        .measurement(w)\n    |window()\n        .period(10s)\n        .every(10s)\n",
 	"qv": "var v string\n\nvar w = 'c'\n\nstream\n    |from()\n        .measurement(v)\n        .groupBy(w)\n",
-	"qf": "var w = 'f'\n\nstream\n    |from()\n        .measurement(w)\n    |influxDBOut()\n        .database('out')\n        .measurement('o')\n",
+	"qf": "var w = 'f'\n\nstream\n    |from()\n        .measurement(w)\n    |influxDBOut()\n        .cluster('c1')\n        .database('out')\n        .measurement('o')\n",
 }
 
 var scriptID = func() map[string]string {
@@ -92,6 +93,9 @@ func (q Req) http() (method, pattern, path string, body []byte) {
 		o := client.CreateTaskOptions{ID: q.ID, TemplateID: q.Tpl, TICKscript: Scripts[q.Script], DBRPs: DBRPs[q.DBRPs], Vars: varsOf(q.Vars)}
 		if q.Script != "" && q.Tpl == "" {
 			o.Type = client.StreamTask
+			if q.Script == "sb" {
+				o.Type = client.BatchTask
+			}
 		}
 		o.Status = statusOf(q.Status)
 		body, _ = json.Marshal(o)
